@@ -961,6 +961,18 @@ def contains_set (a x : PyVal) : M Bool :=
   if !hashable x then throw typeError else contains a x
 /-! ## x2: additions of the second round (more primitives live in `PkgModel/PyRx.lean`) -/
 
+/-- x4: `s.partition(c)` for a one-character separator: `(before, sep, after)` at the first occurrence, `(s, "", "")` if
+none — by definition the two pieces of `s.split(c, 1)` -/
+def str_partition (s sep : PyVal) : M PyVal :=
+  match s, sep with
+  | .str s, .str [c] =>
+    (match splitOnMax c 1 s with
+     | [a, b] => pure (.tuple [.str a, .str [c], .str b])
+     | _ => pure (.tuple [.str s, .str [], .str []]))
+  | .str _, .str _ => throw "PyRtUnsupported"
+  | .str _, _ => throw typeError
+  | _, _ => throw attributeError
+
 /-- unary minus on ints / bools -/
 def neg (a : PyVal) : M PyVal :=
   match asInt a with
